@@ -110,7 +110,11 @@ def run(ctx):
     ctx.ob('C13.overflow-flag', 'USBStreamOutEndpoint.overflow', ok, ov[0].loc if ov else None,
            'a byte refused by a full FIFO sets overflow; commit/discard clears it: %s' % [q.fmt(a) for a in ov])
     # (d) framing bits
-    wdat = {a.lhs.canon(): a.rhs for a in ir.drivers('fifo.write_data', exact=True)}
+    wdat = {}
+    for key, (lo, hi) in (('fifo.write_data[0:8]', (0, 8)), ('fifo.write_data[8:9]', (8, 9)), ('fifo.write_data[9:10]', (9, 10))):
+        bd = q.bits_drivers(ir, 'fifo.write_data', lo, hi)
+        if len(bd) == 1 and bd[0][1] is not None and not bd[0][0].guard:
+            wdat[key] = bd[0][1]
     FULLPKT = '(self._max_packet_size - 1) == rx_cnt'
     want = {'fifo.write_data[0:8]': {('boundary_detector.processed_stream.payload', True)},
             'fifo.write_data[8:9]': {('boundary_detector.last', True), (FULLPKT, False)},
